@@ -652,8 +652,29 @@ func (r *Replica) Restore(ctx context.Context, opt RestoreOptions) (err error) {
 				if latestSnapshot.MinTXID > txid {
 					return fmt.Errorf("cannot resume follow mode: saved TXID %s is behind the earliest snapshot (min TXID %s); replica history has been pruned -- delete %s and %s-txid to re-restore", txid, latestSnapshot.MinTXID, opt.OutputPath, opt.OutputPath)
 				}
-				if txid > latestSnapshot.MaxTXID {
-					return fmt.Errorf("cannot resume follow mode: saved TXID %s is ahead of latest snapshot (max TXID %s); delete %s and %s-txid to re-restore", txid, latestSnapshot.MaxTXID, opt.OutputPath, opt.OutputPath)
+
+				// A follower is normally ahead of the latest snapshot as soon as it
+				// has applied an incremental file, so compare the saved TXID with
+				// the newest TXID of the replica across all levels instead.
+				maxTXID := latestSnapshot.MaxTXID
+				for level := 0; level < SnapshotLevel; level++ {
+					itr, itrErr := r.Client.LTXFiles(ctx, level, 0, false)
+					if itrErr != nil {
+						return fmt.Errorf("cannot validate saved TXID for crash recovery: %w", itrErr)
+					}
+					for itr.Next() {
+						if info := itr.Item(); info.MaxTXID > maxTXID {
+							maxTXID = info.MaxTXID
+						}
+					}
+					if err := itr.Err(); err != nil {
+						_ = itr.Close()
+						return fmt.Errorf("iterate level %d for crash recovery validation: %w", level, err)
+					}
+					_ = itr.Close()
+				}
+				if txid > maxTXID {
+					return fmt.Errorf("cannot resume follow mode: saved TXID %s is ahead of the replica (max TXID %s); delete %s and %s-txid to re-restore", txid, maxTXID, opt.OutputPath, opt.OutputPath)
 				}
 			}
 
